@@ -131,6 +131,7 @@ func nonNil(b []byte) []byte {
 
 func runC03(t failer, c c03Case) {
 	ev.Eval()
+	journal("C03", c)
 	clear := c.body()
 	h := c.header()
 	fail := func(sig, format string, args ...interface{}) {
